@@ -126,11 +126,19 @@ fn oracle(case: &GraphCase, obs: &mut Obs) -> Result<(), Violation> {
 
 fn large_case(t: Tier) -> impl Strategy<Value = GraphCase> {
     let max_nodes = t.pick(120, 900);
-    graph_case(GraphCfg {
-        max_nodes,
-        max_solutions: 2,
-        corrupt_pct: 3,
-        ..Default::default()
+    // mostly without failing programs, so that a good share of the big graphs is accepted and all of
+    // their nodes are compared
+    (any::<bool>(), any::<bool>()).prop_flat_map(move |(failing, post)| {
+        graph_case(GraphCfg {
+            max_nodes,
+            max_solutions: 2,
+            corrupt_pct: 1,
+            dangling_pct: 0,
+            failing: failing && post,
+            calm: !failing,
+            post_weight: if post { 2 } else { 0 },
+            ..Default::default()
+        })
     })
 }
 
